@@ -239,8 +239,10 @@ def run_property(pid: str, tier: str, seed: int, jobs: int = 16, only: Optional[
         tot["sat"] += r.get("sat", 0)
         tot["unknown"] += r.get("unknown", 0)
         tot["atoms"] += r["atoms_proved"]
+        # path witnesses (one per job, at most 48 per property): evidence of what was explored, and the
+        # input of tools/replay_sweep.py, which pushes them through the concrete replay on the real code
         for s in r.get("samples", [])[:1]:
-            if len(samples) < 6:
+            if len(samples) < 48:
                 samples.append({"obligation": r["ob"], "param": r["param"], **s})
         ob = obmap[r["ob"]]
         if r["paths"] < ob.min_paths and not r["violations"]:
